@@ -887,7 +887,28 @@ func (x *Exec) contractCall(fn *ssa.Function, key string, ctr *Contract, args []
 			x.havocAll(st)
 		} else {
 			x.bumpTop(st)
-			x.havocKeys(st, ws.sortedKeys())
+			keys := ws.sortedKeys()
+			if len(ctr.Appends) > 0 {
+				// A log the callee declares under `appends` and that its body (with everything it calls)
+				// does not touch otherwise receives exactly the one entry appended below: it need not
+				// be forgotten first.
+				bw := x.bodyWrites(fn, map[*ssa.Function]bool{})
+				skip := map[string]bool{}
+				for _, lg := range ctr.Appends {
+					nk, ek := x.logKeys(lg)
+					if !bw.all && !bw.keys[nk] && !bw.keys[ek] {
+						skip[nk], skip[ek] = true, true
+					}
+				}
+				var kept []string
+				for _, k := range keys {
+					if !skip[k] {
+						kept = append(kept, k)
+					}
+				}
+				keys = kept
+			}
+			x.havocKeys(st, keys)
 		}
 	}
 	for k := range calleeFresh {
